@@ -6,6 +6,8 @@ package node
 // Run-time control of the verification hooks and a few read-only projections of a KVNode
 // for the verification harness (build tag `verif` only).
 
+import "time"
+
 // VerifArmCrash arms a crash at the k-th hit of hook `name` counted from now.
 func VerifArmCrash(name string, k int) {
 	s := verifS
@@ -14,6 +16,14 @@ func VerifArmCrash(name string, k int) {
 		k = 1
 	}
 	s.crashName, s.crashAt = name, s.hits[name]+k
+	s.mu.Unlock()
+}
+
+// VerifSetCrashDelay makes the dying goroutine block for d before the process is killed.
+func VerifSetCrashDelay(d time.Duration) {
+	s := verifS
+	s.mu.Lock()
+	s.crashDelay = d
 	s.mu.Unlock()
 }
 
